@@ -168,6 +168,10 @@ def generate(rng, n, tier):
         yield c
     for _ in range(max(0, n - len(out))):
         r = rng.random()
+        if r < 0.12:
+            yield _hist_case(rng)
+            continue
+        r = rng.random()
         if r < 0.63:
             a = rand_version(rng)
             yield {"kind": "pair", "a": a, "b": _second(rng, a)}
@@ -193,6 +197,42 @@ def generate(rng, n, tier):
             yield {"kind": "part", "a": a, "b": rng.choice([a, mutate(rng, a), f()])}
         else:
             yield {"kind": "hashkey", "s": rng.choice([_rand_text(rng, 10), rand_version(rng)])}
+
+
+ATTRS = ["full_version", "epoch", "upstream_version", "debian_revision", "debian_version"]
+
+
+def _hist_ops(rng, start):
+    """A history of assignments on an object that starts as [start]: accepted ones, rejected ones (the
+    object must stay as it was), respellings that keep the value equal, None for the optional parts."""
+    ops = []
+    for _ in range(rng.choice([0, 1, 1, 2, 2, 3, 4])):
+        attr = rng.choice(ATTRS)
+        r = rng.random()
+        if attr == "full_version":
+            if r < 0.45:
+                v = rand_version(rng)
+            elif r < 0.7:
+                v = mutate(rng, start)
+            else:   # passes the regex but breaks the colon / hyphen rule, or plain invalid
+                v = rng.choice(["2.0:1", "2.0-", "1:2:3-", "a:1", "1.0-1-", "-1", "", "1 0", "3:", start + "-",
+                                start + ":1", "0:" + start + "-"])
+        elif attr == "epoch":
+            v = rng.choice([None, None, "0", "00", "1", "01", "2", "x", "", "1:", "-1", _number(rng)])
+        elif attr == "upstream_version":
+            v = rng.choice([rand_version(rng).split(":")[-1].split("-")[0], "1.0", "1.00", "2-", "2:0", "x:y", "",
+                            None, "1.0~rc1", "1.0-1", _part(rng, 4, "019aZ.+~:-")])
+        else:
+            v = rng.choice([None, None, "", "0", "00", "1", "01", "1~", "2-", "-", "1-1", "a b", _part(rng, 3)])
+        ops.append([attr, v])
+    return ops
+
+
+def _hist_case(rng):
+    a = rand_version(rng) if rng.random() < 0.9 else rng.choice(INVALID)
+    b = _second(rng, a) if rng.random() < 0.8 else rand_version(rng)
+    return {"kind": "hist", "a": a, "aops": _hist_ops(rng, a), "b": b,
+            "bops": _hist_ops(rng, b) if rng.random() < 0.6 else []}
 
 
 def _valid(s):
@@ -232,6 +272,34 @@ def run_impl(case):
                     "hash_eq": hash(va) == hash(vb)}
         except Exception as e:
             return {"err": err_kind(e)}
+    if k == "hist":
+        try:
+            va = ds.Version(case["a"])
+            vb = ds.Version(case["b"])
+        except Exception as e:
+            return {"err": err_kind(e)}
+        res = {}
+        for nm, v, ops in (("a", va, case["aops"]), ("b", vb, case["bops"])):
+            hash(v)     # anything memoised on the object is memoised now
+            errs = []
+            for attr, val in ops:
+                try:
+                    setattr(v, attr, val)
+                    errs.append(None)
+                except Exception as e:
+                    errs.append(err_kind(e))
+                hash(v)
+            res[nm + "errs"] = errs
+        try:
+            res["astr"], res["bstr"] = str(va), str(vb)
+            res["ab"] = _ops(va, vb)
+            res["hash_eq"] = hash(va) == hash(vb)
+            for nm, v in (("a", va), ("b", vb)):
+                w = ds.Version(str(v))
+                res[nm + "fresh"] = [v == w, hash(v) == hash(w)]
+        except Exception as e:
+            return {"err": err_kind(e)}
+        return res
     if k == "triple":
         out = []
         for x, y in (("a", "b"), ("b", "c"), ("a", "c")):
@@ -273,6 +341,22 @@ def emit(case, obs):
             o = "(Ok (mkP %s %s %s %s %s))" % (_ops_term(obs["ab"]), _ops_term(obs["ba"]),
                                                cq_Z(obs["vc_ab"]), cq_Z(obs["vc_ba"]), cq_bool(obs["hash_eq"]))
         return "CPair %s %s %s" % (cq_str(case["a"]), cq_str(case["b"]), o)
+    if k == "hist":
+        def ops_t(ops):
+            return cq_list(["(%s, %s)" % (cq_str(a), core.cq_opt(v, cq_str)) for a, v in ops])
+
+        def errs_t(es):
+            return cq_list([core.cq_opt(e) for e in es])
+        if "err" in obs:
+            o = "(Err %s)" % obs["err"]
+        else:
+            o = "(Ok (mkH %s %s %s %s %s %s (%s, %s) (%s, %s)))" % (
+                errs_t(obs["aerrs"]), errs_t(obs["berrs"]), cq_str(obs["astr"]), cq_str(obs["bstr"]),
+                _ops_term(obs["ab"]), cq_bool(obs["hash_eq"]),
+                cq_bool(obs["afresh"][0]), cq_bool(obs["afresh"][1]),
+                cq_bool(obs["bfresh"][0]), cq_bool(obs["bfresh"][1]))
+        return "CHist %s %s %s %s %s" % (cq_str(case["a"]), ops_t(case["aops"]), cq_str(case["b"]),
+                                         ops_t(case["bops"]), o)
     if k == "triple":
         return "CTriple %s %s %s %s" % (cq_str(case["a"]), cq_str(case["b"]), cq_str(case["c"]),
                                         " ".join(_res_z(r) for r in obs["r"]))
@@ -309,6 +393,13 @@ def classify(case, obs):
         if "-" in case["a"] or "-" in case["b"]:
             tags.append("rev")
         return "pair/%s/%s" % (rel, "+".join(tags) or "plain")
+    if k == "hist":
+        if "err" in obs:
+            return "hist/" + obs["err"]
+        es = obs["aerrs"] + obs["berrs"]
+        return "hist/%s/%s" % ("none" if not es else "accepted" if all(e is None for e in es) else
+                               "rejected" if all(e is not None for e in es) else "mixed",
+                               "eq" if obs["ab"][2] else "ne")
     if k == "triple":
         return "triple/" + "".join({-1: "<", 0: "=", 1: ">"}.get(r.get("ok"), "E") for r in obs["r"])
     return "leaf/" + k
@@ -316,6 +407,8 @@ def classify(case, obs):
 
 def nontrivial(case, obs):
     k = case["kind"]
+    if k == "hist":
+        return "err" not in obs and bool(case["aops"] or case["bops"])
     if k == "pair":
         return "err" not in obs and case["a"] != case["b"]
     if k == "triple":
@@ -325,8 +418,14 @@ def nontrivial(case, obs):
 
 def shrink(case):
     k = case["kind"]
+    if k == "hist":
+        for key in ("aops", "bops"):
+            for i in range(len(case[key])):
+                c = dict(case)
+                c[key] = case[key][:i] + case[key][i + 1:]
+                yield c
     keys = {"pair": ["a", "b"], "triple": ["a", "b", "c"], "part": ["a", "b"], "chunks": ["s"],
-            "hashkey": ["s"]}.get(k, [])
+            "hashkey": ["s"], "hist": ["a", "b"]}.get(k, [])
     for key in keys:
         s = case[key]
         for i in range(len(s)):
